@@ -111,6 +111,24 @@ def one_grain(run, seed, idx, mods):
             not close(g.unitcell[:3], cell0[:3], 1e-9) or not close(g.mt, ubi2 @ ubi2.T, tol) or \
             not close(g.rmt @ g.mt, np.eye(3), tol) or not close(g.B.T @ g.B, g.rmt, tol):
         V("grain:stale-cache", "derived quantities not refreshed after set_ubi")
+    # history: the caller re-uses the array it built the grain from; whatever it does to its own buffer the grain's
+    # matrices must keep describing one lattice
+    src = np.ascontiguousarray(ubi2.copy())
+    ga = grain.grain(src)
+    _ = (ga.UB, ga.U, ga.B, ga.unitcell, ga.mt)
+    src[:] = np.linalg.inv(xtal.random_rotation(r, "haar") @ xtal.Bmat(xtal.random_cell(r, "triclinic")))
+    run.count("input_aliasing_histories")
+    if not close(ga.UB @ ga.ubi, np.eye(3), tol) or not close(ga.mt, ga.ubi @ ga.ubi.T, tol) or \
+            not close(ga.U @ ga.B, np.linalg.inv(ga.ubi), 1e-9):
+        V("grain:aliases-input", "after the caller overwrote the array the grain was built from, grain.ubi and the derived "
+          "UB/U/B/mt no longer describe the same lattice")
+    src2 = np.ascontiguousarray(ubi.copy())
+    gb = grain.grain(ubi2)
+    gb.set_ubi(src2)
+    _ = gb.UB
+    src2 *= 1.5
+    if not close(gb.UB @ gb.ubi, np.eye(3), tol):
+        V("grain:aliases-input", "set_ubi keeps a reference to the caller's array: UB.ubi != I after the caller scaled it")
     # left handed input must be rejected
     lh = ubi.copy()
     lh[0] = -lh[0]
